@@ -212,7 +212,9 @@ func runC08(t *rapid.T, w *rep.Worker) {
 			for _, nl := range []uint64{it.U + 1, uint64(len(orig)), 1 << 20, 1 << 24, 1 << 27, 1 << 30, 1<<31 - 1, 1 << 31, 1 << 63,
 				// values that change sign or lose their high bits when a reader narrows them: 2^32-1, 2^32, 2^32 + the true
 				// length, 2^63-1, and the sign-extended forms of -1, -2 and the smallest int32
-				1<<32 - 1, 1 << 32, 1<<32 + it.U, 1<<63 - 1, 1<<64 - 1, 1<<64 - 2, 1<<64 - 1<<31} {
+				1<<32 - 1, 1 << 32, 1<<32 + it.U, 1<<63 - 1, 1<<64 - 1, 1<<64 - 2, 1<<64 - 1<<31,
+				// and multiples of the fixed element sizes just below 2^63, where "offset + length" wraps
+				1<<63 - 4, 1<<63 - 8, 1<<63 - 16} {
 				nb := append([]byte{}, orig[:it.Start+kn]...)
 				nb = wirex.AppendVarint(nb, nl)
 				nb = append(nb, orig[it.PayStart:]...)
